@@ -1248,3 +1248,56 @@ def check_bigint_truncation(ctx, P, rule):
                 ctx.bad(rule, inst, 'bigint_to_u64 keeps only the 8 low-order digits, and %s is not known to have at most 8 digits at this call: big integers that agree modulo 2^64 are compared as equal '
                         '(as map keys: merged)' % describe(B, a), ctx.where(B, bb), key='CAST:%s:bigint_to_u64-unguarded' % c)
     return n
+
+
+# ------------------------------------------------------------- bigint digit order ----
+def check_bigint_endianness(ctx, P, rule, crates=('erltf', 'erltf_serde', 'edp_elixir_terms', 'edp_client', 'edp_node')):
+    """BigInt.digits is the wire order of SMALL_BIG_EXT / LARGE_BIG_EXT: least significant byte first.  Every function
+    that turns the digits into a machine integer (or a machine integer into digits) must read them that way:
+    from_le_bytes / to_le_bytes, `byte << (i * 8)` by position, or an accumulate-and-shift fold over the REVERSED digits."""
+    BIG = 'erltf::types::BigInt'
+    groups = {}
+    for p in P.F.bodies:
+        if P.F.bodies[p]['crate'] not in crates or P.F.bodies[p]['kind'] not in ('Fn', 'AssocFn', 'Closure'):
+            continue
+        groups.setdefault(p.split('::{')[0], []).append(p)
+    n = 0
+    for base, paths in sorted(groups.items()):
+        bodies = [P.B(p) for p in paths if P.B(p) is not None]
+        touches = any('digits' in fields_touched(B, BIG) for B in bodies)
+        writes_big = any(any(n_.endswith('BigInt::new') for n_ in callee_names(t)) for B in bodies for _, t in B.calls())
+        if not touches and not writes_big:
+            continue
+        calls = [(B, bb, t, (callee_of(t)[0] or '')) for B in bodies for bb, t in B.calls()]
+        names = [g.rsplit('::', 1)[-1] for _, _, _, g in calls]
+        has_rev = any(x in ('rev', 'reverse', 'rposition', 'rfold', 'next_back') for x in names)
+        verdicts = []
+        for B, bb, t, g in calls:
+            nm = g.rsplit('::', 1)[-1]
+            if nm in ('from_be_bytes', 'to_be_bytes') and ('num::<impl u' in g or 'num::<impl i' in g):
+                if touches and not has_rev:
+                    verdicts.append(('bad', B, bb, '%s on the digit bytes: the digits are least-significant first, so the value is read byte-swapped (0x80000000 becomes 0x80)' % nm))
+            elif nm in ('from_le_bytes', 'to_le_bytes') and ('num::<impl u' in g or 'num::<impl i' in g):
+                verdicts.append(('ok', B, bb, nm))
+        for B in bodies:
+            for bb, j, st in B.stmts():
+                if st['k'] == '=' and st['rv']['k'] == 'bin' and st['rv']['op'] in ('Shl', 'ShlUnchecked'):
+                    amount = canon(B, st['rv']['b'])
+                    if amount == ('const', 8) and touches:
+                        # accumulate-and-shift: acc = (acc << 8) | d  -> needs the most significant digit first
+                        if has_rev:
+                            verdicts.append(('ok', B, bb, 'accumulate-and-shift over the reversed digits'))
+                        else:
+                            verdicts.append(('bad', B, bb, 'accumulate-and-shift (`acc << 8 | digit`) over the digits in stored order: that treats the first (least significant) digit as the most significant one'))
+                    elif isinstance(amount, tuple) and amount and amount[0] == 'bin' and amount[1] in ('Mul', 'MulUnchecked') and ('const', 8) in amount and touches:
+                        verdicts.append(('ok', B, bb, 'digit shifted by 8 x its position'))
+        if not verdicts:
+            continue
+        n += 1
+        bad = [v for v in verdicts if v[0] == 'bad']
+        if bad:
+            _, B, bb, why = bad[0]
+            ctx.bad(rule, base, why, ctx.where(B, bb), key='SHAPE:%s:bigint-digit-order' % base)
+        else:
+            ctx.ok(rule, base, 'little-endian digit handling (%s)' % '; '.join(sorted({v[3] for v in verdicts})), ctx.where(verdicts[0][1], verdicts[0][2]))
+    return n
